@@ -6,6 +6,7 @@ from sa.rules import cpp_rules as C
 from sa.rules import pipeline as P
 from sa.rules import ranges as RG
 from sa.rules import window_rules as WN
+from sa.rules import validators as VX
 from sa.rules import bounds_rules as BR
 
 
@@ -43,6 +44,8 @@ def main(tier):
     chk.run("R-INTTEXT", C.inttext, cx.cpp, only=("buffer",), floor=25)
     chk.run("R-SUBALIGN", WN.subalign, cx.cpp, floor=2)
     chk.run("R-CLAMP", WN.clamp, cx.cpp, floor=3)
+    chk.run("R-ALIGNCHECK", WN.aligncheck, cx.repo, floor=2)
+    chk.run("R-ELEMSIZE", VX.elemsize, cx.repo, cx.schema, cx.sites, clauses=("zero", "huge"), floor=3)
     chk.run("R-ARRAYELEM", WN.arrayelem, cx.cpp, floor=6)
     chk.run("R-MIRROR", C.mirror, cx.cpp, floor=8)
     return chk.finish()
